@@ -183,6 +183,11 @@ def corpus(ctx):
             ctx.count("decision_threshold_zero")
             pipeline_case(ctx, p0, r0, E.mk_cfg(it, ["IOU", "DSC", "ASSD"], matcher=E.naive("IOU", (1, 4)) if it != "MATCHED" else None, decision=[dm, {"q": [0, 1]}]),
                           "corpus.decision-zero")
+    # every prediction matched, a missed reference with the largest label (>= 2^8 / 2^16) in a map wide enough for it
+    for p, r in gen.missed_large_reference_scenes():
+        ctx.count("missed_reference_with_the_largest_label")
+        for mt in (E.naive("IOU", (1, 2)), E.merge("IOU", (1, 2))):
+            pipeline_case(ctx, p, r, E.mk_cfg("UNMATCHED", ["IOU", "DSC"], matcher=mt), "corpus.missed-large-reference")
     # unmatched input, exactly one side empty (fp/fn must not be exchanged)
     e = np.zeros((4, 4), np.uint8)
     f = e.copy()
